@@ -111,6 +111,32 @@ def run_many(chk, focus, nruns, wlat=0.02, extra_programs=(), matrix=True):
     return docs, metas, verdicts
 
 
+def failed_only_here(meta):
+    """A fault-free run of an accepted plan raised on a real executor: does the same program, with the same optimisation setting,
+    complete on the plain single-threaded executor?  If so the failure belongs to the executor / its options."""
+    import cubed
+    import cubed.array_api as xp
+    from cubed.runtime.create import create_executor
+    with traced.Session() as s:
+        try:
+            cv = programs.Interp(xp, True, s.spec()).run(meta["program"])
+            cubed.compute(*[cv[o] for o in meta["program"]["outs"]], executor=create_executor("single-threaded"),
+                          optimize_graph=meta["optimize_graph"])
+            return True
+        except Exception:
+            return False
+
+
+def report_failed_runs(chk, focus, metas):
+    """Executor-specific failures of fault-free runs: the computation did not complete, so the events of the operations that never
+    ended are missing (C13) and nothing can be said about the reads that never happened (C07); both checks report it."""
+    for meta in metas:
+        if meta.get("exception") and meta["executor"] != "single-threaded" and failed_only_here(meta):
+            chk.violation(f"{focus}:ExecutorFailedOnFaultFreeRun {meta['executor']} {meta['options']} optimize={meta['optimize_graph']}: "
+                          f"compute raised {meta['exception'][:160]} although the same program completes on the single-threaded "
+                          f"executor", replay=dict(meta=meta))
+
+
 def selftest(chk, focus, doc):
     """The monitor is bound to the records: three corruptions of an accepted trace must each be rejected."""
     muts = []
